@@ -178,11 +178,12 @@ static void part_conv(Ctx& ctx) {
 }
 
 static void part_pointwise(Ctx& ctx, const PW& k, uint64_t m, int range) {
-  std::string id = sfmt("pointwise|%s|m=%llu|values=%s", k.name, (unsigned long long)m, range ? "special" : "dense");
+  std::string id = sfmt("pointwise|%s|m=%llu|values=%s", k.name, (unsigned long long)m, range == 2 ? "extreme-combinations" : range ? "special" : "dense");
   if (!ctx.want(id)) return;
   ctx.begin_case(id);
   GBuf r(2 * m * 8, 8), a(2 * m * 8, 16), b(2 * m * 8, 24);
   for (uint64_t i = 0; i < 2 * m; ++i) { a.as<double>()[i] = val(i + m, range); b.as<double>()[i] = val(i + 3 * m + 11, range); r.as<double>()[i] = k.addmul ? val(i + 5 * m + 1, 0) : 0; }
+  if (range == 2) { for (uint64_t i = 0; i < 2 * m; ++i) { a.as<double>()[i] = val(i + m, 0); b.as<double>()[i] = val(i + 3 * m + 11, 0); } extreme_triples(k.layout, m, r.as<double>(), a.as<double>(), b.as<double>()); }
   if (!k.addmul) prefill(r.p, r.bytes, 2);
   std::vector<double> r0(r.as<double>(), r.as<double>() + 2 * m);
   std::vector<uint8_t> as(a.p, a.p + a.bytes), bs(b.p, b.p + b.bytes);
@@ -208,7 +209,7 @@ int main(int argc, char** argv) {
   for (uint64_t m = 65536; m >= 4; m /= 2) for (auto& c : cfgs(th)) items.push_back({1, m, 0, 0, 0, c});
   for (uint64_t nr = 0; nr <= (th ? 64u : 16u); ++nr) for (int rg = 0; rg < 3; ++rg) items.push_back({2, nr, 0, 0, rg, CFG_NATIVE});
   items.push_back({3, 0, 0, 0, 0, CFG_NATIVE});
-  for (int k = 0; k < npw; ++k) for (uint64_t m = 4096; m >= pw[k].minm; m /= 2) { for (int rg = 0; rg < 2; ++rg) items.push_back({4, m, 0, 0, k * 2 + rg, CFG_NATIVE}); if (m == 1) break; }
+  for (int k = 0; k < npw; ++k) for (uint64_t m = 4096; m >= pw[k].minm; m /= 2) { for (int rg = 0; rg < 3; ++rg) items.push_back({4, m, 0, 0, k * 3 + rg, CFG_NATIVE}); if (m == 1) break; }
   ctx.parallel(items.size(), [&](uint64_t i) {
     const It& it = items[i];
     switch (it.part) {
@@ -216,7 +217,7 @@ int main(int argc, char** argv) {
       case 1: part_cplx(ctx, it.m, it.cfg); break;
       case 2: part_dot(ctx, it.m, it.k); break;
       case 3: part_conv(ctx); break;
-      case 4: part_pointwise(ctx, pw[it.k / 2], it.m, it.k % 2); break;
+      case 4: part_pointwise(ctx, pw[it.k / 3], it.m, it.k % 3); break;
     }
   });
   ctx.assumptions = {"a reim4 block holds the four complex numbers 4b..4b+3 (real parts then imaginary parts); inside the cplx<->reim4 conversion the library orders them 0,2,1,3 - the property only demands that the round trip is the identity and that all m numbers are converted",
